@@ -35,6 +35,7 @@ type LetDef struct {
 
 type Contract struct {
 	Key      string
+	FnKey    string // function the contract is about (Key without an @mode suffix)
 	Line     int
 	Requires []*Clause
 	Ensures  []*Clause
@@ -103,10 +104,20 @@ func parseContractFile(path string) (map[string]*Contract, error) {
 				key = key[:j]
 			}
 			key = strings.TrimSpace(key)
+			fnKey := key
+			mode := ""
+			if i := strings.Index(rest, " @"); i >= 0 {
+				mode = strings.TrimSpace(rest[i+2:])
+				if j := strings.Index(key, " @"); j >= 0 {
+					key = strings.TrimSpace(key[:j])
+				}
+				fnKey = key
+				key = key + "@" + mode
+			}
 			if _, dup := out[key]; dup {
 				return nil, fmt.Errorf("%s:%d: duplicate contract for %s", path, l.no, key)
 			}
-			cur = &Contract{Key: key, Line: l.no, LoopInv: map[int][]*Clause{}}
+			cur = &Contract{Key: key, FnKey: fnKey, Mode: mode, Line: l.no, LoopInv: map[int][]*Clause{}}
 			out[key] = cur
 			continue
 		}
@@ -680,6 +691,7 @@ type SpecEnv struct {
 	Cur   State
 	Old   State
 	Pre   State // loop invariants: state at loop entry
+	Acq   State // lock mode: state right after the lock was acquired
 	Funcs map[string]*PreludeFn
 	Bound map[string]string // quantifier-bound var -> sort
 	CompSorts map[string]string
@@ -958,6 +970,14 @@ func (e *SpecEnv) call(n *node) (specVal, error) {
 			return specVal{}, fmt.Errorf("old takes one argument")
 		}
 		return e.withState(e.Old).comp(n.Kids[0])
+	case "acq":
+		if len(n.Kids) != 1 {
+			return specVal{}, fmt.Errorf("acq takes one argument")
+		}
+		if e.Acq == nil {
+			return specVal{}, fmt.Errorf("acq() is only available in lock-mode contracts after the lock was taken")
+		}
+		return e.withState(e.Acq).comp(n.Kids[0])
 	case "pre":
 		if len(n.Kids) != 1 {
 			return specVal{}, fmt.Errorf("pre takes one argument")
